@@ -92,10 +92,13 @@ func conformantSSO(rng *rand.Rand) *ssoCase {
 		}
 		d.ACS = append(d.ACS, a)
 	}
+	d.Decor = rng.Intn(16) // parts of the document that say nothing about endpoints and keys of the role (errorURL, an IdP role ...)
 	d.AuthnRequestsSigned = []string{"", "false", "0", "true", "1"}[rng.Intn(5)]
 	c.Want = []string{"", "false", "true", "1"}[rng.Intn(4)]
 	if rng.Intn(4) == 0 {
 		d.EncCert = keys.Get("sp3") // an encryption key listed in front of the signing key
+	} else if rng.Intn(4) == 0 {
+		d.CertUse = "none" // the optional use attribute left out: the key serves both purposes
 	}
 	if rng.Intn(6) == 0 && len(d.ACS) >= 1 {
 		// one consumer URL registered for two bindings, the answerable one listed second
